@@ -445,6 +445,9 @@ def typeof(x):
         return {'bool'}
     if op in ('len', 'lin', 'consumed', 'int', 'ord'):
         return {'int'}
+    if op == 'concat' and x.args and typeof(x.args[0]) == {'bytearray'}:
+        # bytes-like concatenation has the type of its left operand
+        return {'bytearray'}
     if op in ('concat', 'pack', 'utf8', 'enc', 'bytes'):
         return {'bytes'}
     if op == 'bytearray':
